@@ -70,6 +70,24 @@ def run(chk, tier, seed, replay=None):
                 c['o']['j'] = 2
         c['mode'] = 'cli'
     cases += ccases
+    # a layer whose setUp fails on top of a base that cannot be torn down, more layers behind it
+    for k in range(12 if tier == 'quick' else 120):
+        g = {'n': 4, 'bases': [[], [1], [], [rng.choice([1, 3])] if rng.random() < 0.5 else []]}
+        names = worlds.permuted_names(rng, 4)
+        w = worlds.make_world('f%d' % k, g, rng, kinds=rng.choice(['class', 'instance']), hooks='all',
+                              faults={names[0]: {'tearDown': 'notimpl'}, names[1]: {'setUp': 'raise'}},
+                              outcomes=['pass'], owners=[names[1], names[2], names[3]], names=names)
+        cases.append({'id': w['id'], 'world': w, 'o': {'stop': True, 'verbose': rng.choice([0, 1])},
+                      'mode': 'cli'})
+    # --buffer: the first failing test leaves a stream of its own in place of sys.stdout
+    bcases = corecheck.gen_cases(rng, graphs, 16 if tier == 'quick' else 160,
+                                 dict(prof_b, faults=(0.0, 0.0, 0.0)), 'r')
+    for c in bcases:
+        c['o']['buffer'] = True
+        for t in c['world']['tests'].values():
+            if t.get('kind') in ('fail', 'error') and 'body' in t:
+                t['body'] = [{'a': 'redirect', 'stream': 'stdout'}] + list(t['body'])
+    cases += bcases
     for c in cases[:3]:
         chk.sample({'world': c['world'], 'options': c['o'], 'mode': c['mode']})
     corecheck.run_cases(chk, FAM, cases)
